@@ -41,9 +41,9 @@ CHECKS = {
  'C14': dict(tech=A + '; one inductive step per operation from an arbitrary valid collection state', cat='model_checking',
              text='Crystal_ArrayInit/AddCrystal (user and built-in collection)/GetCrystal/GetCrystalsList/MakeCopy/Free/ArrayFree of the real crystal_diffraction.c executed by CBMC from every array shape with capacity <= 2 and symbolic contents: invariant (sorted, counts, capacity) preserved on the object the caller holds, abstract content = old + new on success and unchanged on rejection, growth when full, built-in capacity enforced, independent copies, everything released by ArrayFree (memory-leak check)',
              note='capacity <= 2 (12 after growth), names <= 2 bytes, <= 1 atom; typed bsearch/qsort/memcpy models with the real comparators; libm stand-ins; Crystal_ReadFile (file I/O) not encoded'),
- 'C07': dict(tech=A + ' (symbol table only in this round)', cat='model_checking',
-             text='PARTIAL: element symbol <-> atomic number bijection over the real element table (AtomicNumberToSymbol for every 32-bit Z, SymbolToAtomicNumber for all 107 symbols, NULL and non-symbols). The string-to-composition part (CompoundParserSimple) has no solver verdict: CBMC produced 33 M clauses for the one-character formula even with every libc piece modelled, see DESIGN.md C07',
-             note='the parser fixes (locale restore, unweighable elements, failure-path leaks) were confirmed natively (valgrind) and are recorded in known_findings.json; they are NOT yet guarded by a solver check'),
+ 'C07': dict(tech=A + ' (scanner: one nesting level of the real CompoundParserSimple per string shape, nested calls replaced by a contract stub via goto-instrument --replace-calls; add_compound_data; symbol table) + ' + B + ' (CompoundParser assembly, locale, ownership)', cat='model_checking',
+             text='(1) scanner: for every string shape of <= 3 characters (quick; <= 4 thorough) over the 9 character classes, one nesting level of the real scanner agrees with a reference grammar: accept/reject, strictly ascending element list, counts = algebraic expansion with nested group results scaled by their multiplier, text unmodified, exactly one error on rejection, no leak/double free/out-of-bounds; nesting depth by induction through the contract stub. (2) CompoundParser assembly for <= 3 elements: Elements/nAtoms copied, nAtomsAll, molarMass, massFractions, unweighable elements rejected, numeric locale restored, ownership. (3) add_compound_data for |A|,|B| <= 3: ascending union, wA*fA + wB*fB. (4) element symbol <-> Z bijection on the real table',
+             note='scanner bounds: strings <= 3 (4) characters per level, <= 2 groups per level, nested results <= 2 elements, subscripts/counts on an exact grid (multilinear identities), characters are class representatives, strtod value and element table abstract per position; formulas longer than the bound and libc strtod/ctype themselves are outside the claim'),
  'C03': dict(tech='composition: ' + B + ' and ' + A + ' (every per-topic obligation carries the error protocol of the function it encodes) + the error module under CBMC', cat='model_checking',
              text='for each exported function that some obligation encodes: success <=> empty slot, sentinel <=> exactly one error with an enum code and a non-empty literal message, no store over an existing error, same value with error == NULL, no domain error on success paths; the error module (set/propagate/clear/copy/free) for every slot state; evidence lists the exported functions that no obligation encodes',
              note='quick tier: cross sections, Kissel cascade, closed forms, line groups, scalar accessors, interpolation, compounds, Auger, symbols, crystal containers, catalogues; jump-ratio XRF and crystal diffraction are swept in the thorough tier; "finite" is claimed as absence of domain errors, not as absence of overflow'),
